@@ -9,13 +9,26 @@
 //! Spec oracle in Rust on the implementation's own output (independent of both): dispatched ⇒ parses, source is an
 //! IP equal to the peer, path type ∈ {0,1}, exactly one dispatch and no reply; otherwise ≤ 1 reply, ≤ 1232 ≤ 9216 bytes,
 //! an SCMP parameter problem quoting a prefix of the datagram, with a checksum that verifies; never a panic.
+//!
+//! Stream "gateway": the REAL `TunnelGateway::start_server` runs on a loop-back UDP socket (own thread, own tokio
+//! runtime); a real gotatun `Tunn` client does the Noise handshake with it over UDP and sends every case's datagram as
+//! a WireGuard data message.  Observed: the exact bytes the gateway hands to `Dispatcher::try_dispatch` (recording mock)
+//! and the decrypted datagrams the gateway sends back.  Three gateway/client pairs give the three peer kinds the
+//! closure's `from.ip()` can have: IPv4 (127.0.0.1), IPv6 (::1) and v4-mapped (::ffff:127.0.0.1, an IPv4 client of a
+//! dual-stack `[::]` socket, whose `local_addr().ip()` is the unspecified `::`).  A sentinel datagram after every case
+//! (invalid version, unique marker; the gateway answers it with an SCMP reply quoting it) closes the case without
+//! sleeping: the gateway handles one client's datagrams in order and sends replies in order.
 use std::{
-    net::{IpAddr, Ipv4Addr, Ipv6Addr},
+    net::{IpAddr, Ipv4Addr, Ipv6Addr, SocketAddr, UdpSocket},
     sync::{Arc, Mutex},
-    time::Instant,
+    time::{Duration, Instant},
 };
 
-use ana_gotatun::packet::PacketBufPool;
+use ana_gotatun::{
+    noise::{Tunn, TunnResult, rate_limiter::RateLimiter},
+    packet::{Packet, PacketBufPool, WgKind},
+    x25519,
+};
 use sciparse::{
     address::{addr::ScionAddr, host_addr::ScionHostAddr, socket_addr::ScionSocketAddr},
     core::{encode::WireEncode, view::{View, ViewConversionError}},
@@ -30,10 +43,13 @@ use snap_dataplane::{
     dispatcher::Dispatcher,
     tunnel_gateway::{
         NoopTunnelGatewayObserver,
+        dispatcher::TunnelGatewayDispatcher,
         gateway::{TunnelGateway, verif},
+        metrics::TunnelGatewayDispatcherMetrics,
     },
 };
 use snap_tun::server::SnapTunAuthorization;
+use tokio_util::sync::CancellationToken;
 use verif_harness::*;
 
 #[derive(Default)]
@@ -60,6 +76,8 @@ struct Case {
     d: Vec<u8>,
     peer: IpAddr,
     local: IpAddr,
+    /// run through the real gateway (peer/local are then the addresses of the loop-back pair)
+    gw: bool,
 }
 
 fn ip_str(ip: &IpAddr) -> String {
@@ -349,6 +367,40 @@ fn peers() -> Vec<IpAddr> {
     ]
 }
 
+/// gateway-local addresses of the direct (non-gateway) streams: an IPv4, two IPv6 and the two unspecified addresses
+/// (`socket.local_addr()` of a wildcard-bound socket, and the `unwrap_or(UNSPECIFIED)` fallback of start_server)
+fn locals() -> Vec<IpAddr> {
+    vec![
+        IpAddr::V4(Ipv4Addr::new(192, 0, 2, 1)),
+        IpAddr::V6(Ipv6Addr::new(0xfd00, 0, 0, 0, 0, 0, 0, 1)),
+        IpAddr::V6(Ipv6Addr::LOCALHOST),
+        IpAddr::V4(Ipv4Addr::UNSPECIFIED),
+        IpAddr::V6(Ipv6Addr::UNSPECIFIED),
+    ]
+}
+
+/// where the cases of a generator go: directly into the policy check (any peer, any local address) or through one
+/// real gateway/client pair (then the peer and the local address are what that pair's sockets have)
+#[derive(Clone)]
+struct Target {
+    peers: Vec<IpAddr>,
+    locals: Vec<IpAddr>,
+    gw: bool,
+    /// largest datagram the target can carry
+    max_len: usize,
+}
+impl Target {
+    fn direct(bufsz: usize) -> Target {
+        Target { peers: peers(), locals: locals(), gw: false, max_len: bufsz }
+    }
+    fn case(&self, kind: &'static str, d: Vec<u8>, peer: IpAddr, local: IpAddr) -> Case {
+        Case { kind, d, peer, local, gw: self.gw }
+    }
+}
+fn is_mapped(ip: &IpAddr) -> bool {
+    matches!(ip, IpAddr::V6(a) if a.to_ipv4_mapped().is_some())
+}
+
 /// address bytes of length `len` that "match" the peer as far as any aliasing could: the peer's octets, cut or
 /// zero-extended to `len` (for the v4-mapped peer: both the 16 octets and the embedded 4)
 fn matching_bytes(peer: &IpAddr, len: usize, embedded: bool) -> Vec<u8> {
@@ -378,17 +430,21 @@ fn truncations(h: &Hdr, full: usize) -> Vec<usize> {
     t
 }
 
-fn gen_cross(rng: &mut Rng, thorough: bool) -> Vec<Case> {
+/// `full`: every destination nibble and every truncation; otherwise destination nibbles {0,3,4,9}, truncations with
+/// the first of them; `lean`: (gateway, quick tier) destination nibbles {0,3}, truncations only for path types 0/1
+fn gen_cross(rng: &mut Rng, t: &Target, full: bool, lean: bool) -> Vec<Case> {
     let mut out = vec![];
-    let local4 = IpAddr::V4(Ipv4Addr::new(192, 0, 2, 1));
-    let local6 = IpAddr::V6(Ipv6Addr::new(0xfd00, 0, 0, 0, 0, 0, 0, 1));
-    let dst_nibs: Vec<u8> = if thorough { (0..16).collect() } else { vec![0, 3, 4, 9] };
+    let dst_nibs: Vec<u8> = if full { (0..16).collect() } else if lean { vec![0, 3] } else { vec![0, 3, 4, 9] };
+    // path types: the three known ones, the neighbours, the top, and two drawn from 6..=254
+    let mut pts = vec![0u8, 1, 2, 3, 4, 5, 255];
+    pts.push(rng.range(6, 254) as u8);
+    pts.push(rng.range(6, 254) as u8);
     for src_nib in 0u8..16 {
-        for &pt in &[0u8, 1, 2, 3, 4, 5, 255] {
-            for (pi, peer) in peers().iter().enumerate() {
+        for &pt in &pts {
+            for (pi, peer) in t.peers.iter().enumerate() {
                 for mode in 0..3 {
                     // 0: matching bytes, 1: matching the embedded v4 (only differs for the mapped peer), 2: non-matching
-                    if mode == 1 && pi != 2 {
+                    if mode == 1 && !is_mapped(peer) {
                         continue;
                     }
                     for &dst_nib in &dst_nibs {
@@ -404,10 +460,18 @@ fn gen_cross(rng: &mut Rng, thorough: bool) -> Vec<Case> {
                             dst_host: rng.bytes(host_len(dst_nib)), src_host, path: path_for(rng, pt),
                             payload: rng.bytes(npay), hdr_units_delta: 0, payload_len: None,
                         };
-                        let full = h.bytes();
-                        let cuts = if thorough || dst_nib == dst_nibs[0] { truncations(&h, full.len()) } else { vec![full.len()] };
+                        let full_d = h.bytes();
+                        let cuts = if full || (dst_nib == dst_nibs[0] && !(lean && pt > 1)) { truncations(&h, full_d.len()) } else { vec![full_d.len()] };
+                        // the gateway-local address: family of the peer for matching bytes, otherwise any (incl. unspecified)
+                        let local = if t.locals.len() == 1 {
+                            t.locals[0]
+                        } else if mode == 0 {
+                            t.locals[if pi == 0 { 0 } else { 1 }]
+                        } else {
+                            *rng.pick(&t.locals)
+                        };
                         for cut in cuts {
-                            out.push(Case { kind: "cross", d: full[..cut].to_vec(), peer: *peer, local: if pi == 0 { local4 } else { local6 } });
+                            out.push(t.case("cross", full_d[..cut].to_vec(), *peer, local));
                         }
                     }
                 }
@@ -417,12 +481,11 @@ fn gen_cross(rng: &mut Rng, thorough: bool) -> Vec<Case> {
     out
 }
 
-fn gen_mutant(rng: &mut Rng) -> Case {
-    let ps = peers();
-    let peer = *rng.pick(&ps);
+fn gen_mutant(rng: &mut Rng, t: &Target) -> Case {
+    let peer = *rng.pick(&t.peers);
     let src_nib = *rng.pick(&[0u8, 0, 3, 3, 4, 1, 7, 12, 15]);
     let dst_nib = *rng.pick(&[0u8, 3, 4, 2, 11]);
-    let pt = *rng.pick(&[0u8, 1, 1, 1, 2, 3, 200]);
+    let pt = if rng.chance(1, 8) { rng.range(6, 254) as u8 } else { *rng.pick(&[0u8, 1, 1, 1, 2, 3, 200]) };
     let mut path = path_for(rng, pt);
     if pt == 1 && rng.chance(1, 3) {
         // arbitrary segment lengths (up to 63 each) with a path body that may or may not match
@@ -457,15 +520,28 @@ fn gen_mutant(rng: &mut Rng) -> Case {
         let k = rng.below(d.len().min(64) as u64) as usize;
         d[k] ^= 1 << rng.below(8);
     }
-    Case { kind: "mutant", d, peer, local: if rng.chance(1, 2) { IpAddr::V4(Ipv4Addr::new(192, 0, 2, 1)) } else { IpAddr::V6(Ipv6Addr::LOCALHOST) } }
+    d.truncate(t.max_len);
+    let local = *rng.pick(&t.locals);
+    t.case("mutant", d, peer, local)
 }
 
 /// valid packets built with sciparse's own packet models, up to the jumbo buffer size
-fn gen_valid(rng: &mut Rng, bufsz: usize) -> Case {
+fn gen_valid(rng: &mut Rng, t: &Target) -> Case {
+    let bufsz = t.max_len;
     let ps = peers();
-    let peer = *rng.pick(&ps);
+    let peer = *rng.pick(&t.peers);
     let ia: IsdAsn = "1-ff00:0:110".parse().unwrap();
-    let src_ip = if rng.chance(3, 4) { peer } else { *rng.pick(&ps) };
+    // the source host: mostly the peer itself; otherwise another address, or the other-family spelling of the peer
+    let src_ip = if rng.chance(3, 4) {
+        peer
+    } else if rng.chance(1, 2) {
+        *rng.pick(&ps)
+    } else {
+        match peer {
+            IpAddr::V4(a) => IpAddr::V6(a.to_ipv6_mapped()),
+            IpAddr::V6(a) => a.to_ipv4_mapped().map(IpAddr::V4).unwrap_or(IpAddr::V4(Ipv4Addr::new(0, 0, 0, 1))),
+        }
+    };
     let dst_ip = *rng.pick(&ps);
     let path = match rng.below(4) {
         0 => DpPath::Empty,
@@ -495,25 +571,36 @@ fn gen_valid(rng: &mut Rng, bufsz: usize) -> Case {
         d.extend(rng.bytes(n));
     }
     d.truncate(bufsz);
-    Case { kind: "valid", d, peer, local: IpAddr::V4(Ipv4Addr::new(192, 0, 2, 1)) }
+    let local = if t.locals.len() == 1 || rng.chance(1, 4) { *rng.pick(&t.locals) } else { t.locals[0] };
+    t.case("valid", d, peer, local)
 }
 
+/// corpus / replay line: `<hex datagram> <peer> <local> [gw]`; with `gw` the case is sent through the real gateway pair
+/// whose peer address is `<peer>` (127.0.0.1, ::1 or ::ffff:127.0.0.1; `<local>` is then what that pair's socket has)
 fn case_line(c: &Case) -> String {
-    format!("{} {} {}", hex(&c.d), ip_str(&c.peer), ip_str(&c.local))
+    format!("{} {} {}{}", hex(&c.d), ip_str(&c.peer), ip_str(&c.local), if c.gw { " gw" } else { "" })
 }
 fn parse_case(l: &str) -> Option<Case> {
     let mut it = l.split_whitespace();
-    Some(Case { kind: "corpus", d: unhex(it.next()?)?, peer: parse_ip(it.next()?)?, local: parse_ip(it.next()?)? })
+    let (d, peer, local) = (unhex(it.next()?)?, parse_ip(it.next()?)?, parse_ip(it.next()?)?);
+    let gw = match it.next() {
+        None => false,
+        Some("gw") => true,
+        Some(_) => return None,
+    };
+    Some(Case { kind: if gw { "corpus-gw" } else { "corpus" }, d, peer, local, gw })
 }
 fn case_json(c: &Case) -> serde_json::Value {
     let d = &c.d;
-    json!({"kind": c.kind, "len": d.len(), "head": hex(&d[..d.len().min(48)]), "peer": c.peer.to_string(), "local": c.local.to_string(),
+    json!({"kind": c.kind, "via": if c.gw { "real TunnelGateway::start_server over loop-back UDP + WireGuard" } else { "direct call" }, "len": d.len(), "head": hex(&d[..d.len().min(48)]), "peer": c.peer.to_string(), "local": c.local.to_string(),
            "src_nibble": d.get(9).map(|b| b & 15), "path_type": d.get(8), "line": if d.len() <= 200 { case_line(c) } else { String::new() }})
 }
 
 struct Eval {
     check: String,
     step_canon: String,
+    /// the model's `step` answer (what the gateway closure must do with this datagram)
+    model_step: String,
     spec: Vec<(String, String)>,
     disagree: Option<(String, String, String)>,
 }
@@ -542,7 +629,7 @@ fn eval(pool: &PacketBufPool<{ verif::PACKET_BUF_SIZE }>, lean: &mut Lean, c: &C
     if lean.differs(&m3, &impl_class) {
         spec.push(("C08:filter-differs-from-independent-spec".into(), format!("implementation: {impl_class}; independent decision procedure: {m3}")));
     }
-    Eval { check, step_canon: o.canon, spec, disagree }
+    Eval { check, step_canon: o.canon, model_step: m2, spec, disagree }
 }
 
 fn shrink(pool: &PacketBufPool<{ verif::PACKET_BUF_SIZE }>, lean: &mut Lean, c: &Case, max_err: usize, bufsz: usize, fails: &dyn Fn(&Eval) -> bool) -> Case {
@@ -573,6 +660,600 @@ fn shrink(pool: &PacketBufPool<{ verif::PACKET_BUF_SIZE }>, lean: &mut Lean, c: 
     cur
 }
 
+// ---------------------------------------------------------------------------------------------
+// the real gateway
+
+/// WireGuard data-message overhead (16-byte header + 16-byte tag): the gateway's receive buffer is PACKET_BUF_SIZE, so
+/// the largest datagram that can reach the filter is PACKET_BUF_SIZE - 32 (a longer one is cut by the kernel and fails
+/// to decrypt)
+const WG_OVERHEAD: usize = 32;
+const GW_TIMEOUT: Duration = Duration::from_secs(5);
+const SENTINEL_MAGIC: &[u8; 12] = b"C08-SENTINEL";
+
+fn wg_bytes(k: WgKind) -> Vec<u8> {
+    match k {
+        WgKind::HandshakeInit(p) => p.into_bytes()[..].to_vec(),
+        WgKind::HandshakeResp(p) => p.into_bytes()[..].to_vec(),
+        WgKind::CookieReply(p) => p.into_bytes()[..].to_vec(),
+        WgKind::Data(p) => p.into_bytes()[..].to_vec(),
+    }
+}
+
+/// an `AF_INET6` UDP socket bound to `[::]:0` with `IPV6_V6ONLY` switched off: IPv4 senders appear as `::ffff:a.b.c.d`
+fn dual_stack_socket() -> std::io::Result<UdpSocket> {
+    use std::os::fd::FromRawFd;
+    unsafe {
+        let fd = libc::socket(libc::AF_INET6, libc::SOCK_DGRAM | libc::SOCK_CLOEXEC, 0);
+        if fd < 0 {
+            return Err(std::io::Error::last_os_error());
+        }
+        let sock = UdpSocket::from_raw_fd(fd); // closes on every early return
+        let off: libc::c_int = 0;
+        if libc::setsockopt(fd, libc::IPPROTO_IPV6, libc::IPV6_V6ONLY, &off as *const _ as *const libc::c_void, std::mem::size_of::<libc::c_int>() as libc::socklen_t) != 0 {
+            return Err(std::io::Error::last_os_error());
+        }
+        let mut sa: libc::sockaddr_in6 = std::mem::zeroed();
+        sa.sin6_family = libc::AF_INET6 as libc::sa_family_t;
+        if libc::bind(fd, &sa as *const _ as *const libc::sockaddr, std::mem::size_of::<libc::sockaddr_in6>() as libc::socklen_t) != 0 {
+            return Err(std::io::Error::last_os_error());
+        }
+        Ok(sock)
+    }
+}
+
+#[derive(Clone, Copy, PartialEq, Eq, Debug)]
+enum PairKind {
+    V4,
+    V6,
+    Dual,
+}
+impl PairKind {
+    fn name(self) -> &'static str {
+        match self {
+            PairKind::V4 => "v4 peer 127.0.0.1 (gateway on 127.0.0.1)",
+            PairKind::V6 => "v6 peer ::1 (gateway on ::1)",
+            PairKind::Dual => "v4-mapped peer ::ffff:127.0.0.1 (dual-stack gateway on ::)",
+        }
+    }
+    /// the address the gateway must see as `from.ip()`
+    fn peer(self) -> IpAddr {
+        match self {
+            PairKind::V4 => IpAddr::V4(Ipv4Addr::LOCALHOST),
+            PairKind::V6 => IpAddr::V6(Ipv6Addr::LOCALHOST),
+            PairKind::Dual => IpAddr::V6(Ipv4Addr::LOCALHOST.to_ipv6_mapped()),
+        }
+    }
+    fn of_peer(ip: &IpAddr) -> Option<PairKind> {
+        [PairKind::V4, PairKind::V6, PairKind::Dual].into_iter().find(|k| k.peer() == *ip)
+    }
+}
+
+/// what one datagram caused at the real gateway
+#[derive(Default)]
+struct GwObs {
+    dispatched: Vec<Vec<u8>>,
+    replies: Vec<Vec<u8>>,
+    /// the sentinel's reply did not arrive in time
+    timeout: bool,
+    /// the gateway thread is gone (it panicked)
+    dead: bool,
+    /// datagrams from the gateway that the client's tunnel could not read
+    stray: Vec<String>,
+}
+
+/// a running `TunnelGateway::start_server` and a WireGuard client with an established session to it
+struct GwPair {
+    kind: PairKind,
+    /// `socket.local_addr().ip()` of the gateway socket
+    local: IpAddr,
+    sock: UdpSocket,
+    tunn: Tunn,
+    mock: Arc<Mock>,
+    cancel: CancellationToken,
+    thread: Option<std::thread::JoinHandle<()>>,
+    seq: u64,
+    served: u64,
+    /// the gateway's reply to the latest sentinel (shows the addresses the closure works with)
+    sentinel_reply: Vec<u8>,
+}
+
+impl GwPair {
+    fn start(kind: PairKind) -> Result<GwPair, String> {
+        let e = |what: &str, err: std::io::Error| format!("{what}: {err}");
+        let gw_std = match kind {
+            PairKind::V4 => UdpSocket::bind("127.0.0.1:0"),
+            PairKind::V6 => UdpSocket::bind("[::1]:0"),
+            PairKind::Dual => dual_stack_socket(),
+        }
+        .map_err(|x| e("gateway socket", x))?;
+        gw_std.set_nonblocking(true).map_err(|x| e("nonblocking", x))?;
+        let gw_addr = gw_std.local_addr().map_err(|x| e("local_addr", x))?;
+        let local = gw_addr.ip();
+        let (client_bind, target): (&str, SocketAddr) = match kind {
+            PairKind::V4 | PairKind::Dual => ("127.0.0.1:0", SocketAddr::new(IpAddr::V4(Ipv4Addr::LOCALHOST), gw_addr.port())),
+            PairKind::V6 => ("[::1]:0", SocketAddr::new(IpAddr::V6(Ipv6Addr::LOCALHOST), gw_addr.port())),
+        };
+        let sock = UdpSocket::bind(client_bind).map_err(|x| e("client socket", x))?;
+        sock.connect(target).map_err(|x| e("client connect", x))?;
+        sock.set_read_timeout(Some(GW_TIMEOUT)).map_err(|x| e("timeout", x))?;
+
+        let server_secret = x25519::StaticSecret::from([0xA5u8; 32]);
+        let server_pub = x25519::PublicKey::from(&server_secret);
+        let client_secret = x25519::StaticSecret::from([0x17u8; 32]);
+        let client_pub = x25519::PublicKey::from(&client_secret);
+        let mock = Arc::new(Mock::default());
+        let cancel = CancellationToken::new();
+        let (mock2, cancel2) = (mock.clone(), cancel.clone());
+        let thread = std::thread::Builder::new()
+            .name("c08-gateway".into())
+            .spawn(move || {
+                let rt = tokio::runtime::Builder::new_current_thread().enable_all().build().expect("tokio runtime");
+                rt.block_on(async move {
+                    let socket = tokio::net::UdpSocket::from_std(gw_std).expect("tokio socket");
+                    // the sending half must stay alive: start_server leaves its loop when the outbound channel closes
+                    let (keep, rx) = TunnelGatewayDispatcher::new(TunnelGatewayDispatcherMetrics::new(&Default::default()));
+                    let gw: Gw = TunnelGateway::new(socket, server_secret, Arc::new(Authz), mock2, Arc::new(NoopTunnelGatewayObserver), rx);
+                    gw.start_server(cancel2).await;
+                    drop(keep);
+                });
+            })
+            .map_err(|x| e("gateway thread", x))?;
+        let tunn = Tunn::new(client_secret, server_pub, None, None, 1, Arc::new(RateLimiter::new(&client_pub, u64::MAX)), target);
+        let mut pair = GwPair { kind, local, sock, tunn, mock, cancel, thread: Some(thread), seq: 0, served: 0, sentinel_reply: vec![] };
+        pair.handshake()?;
+        // probe: the sentinel's reply shows which addresses the closure works with: destination = from.ip(), source = local_addr
+        let obs = pair.run(None);
+        if obs.timeout || obs.dead {
+            return Err(format!("{}: no answer to the first sentinel (timeout={} dead={})", kind.name(), obs.timeout, obs.dead));
+        }
+        let r = &pair.sentinel_reply;
+        let host = |ip: &IpAddr| match ip {
+            IpAddr::V4(a) => (0u8, a.octets().to_vec()),
+            IpAddr::V6(a) => (3u8, a.octets().to_vec()),
+        };
+        let ((dn, db), (sn, sb)) = (host(&kind.peer()), host(&local));
+        let ok = r.len() >= 28 + db.len() + sb.len() && r[9] >> 4 == dn && r[9] & 15 == sn && r[28..28 + db.len()] == db[..] && r[28 + db.len()..28 + db.len() + sb.len()] == sb[..];
+        if !ok {
+            return Err(format!("{}: the gateway does not see the client as {} / itself as {} (reply header {})", kind.name(), kind.peer(), local, hex(&r[..r.len().min(60)])));
+        }
+        Ok(pair)
+    }
+
+    fn handshake(&mut self) -> Result<(), String> {
+        let init = self.tunn.format_handshake_initiation(true).ok_or("client produced no handshake initiation")?;
+        self.sock.send(&wg_bytes(init.into())).map_err(|x| format!("send init: {x}"))?;
+        let mut buf = vec![0u8; 65536];
+        let n = self.sock.recv(&mut buf).map_err(|x| format!("{}: no handshake response: {x}", self.kind.name()))?;
+        let k = Packet::copy_from(&buf[..n]).try_into_wg().map_err(|x| format!("handshake response unparseable: {x}"))?;
+        match self.tunn.handle_incoming_packet(k) {
+            TunnResult::WriteToNetwork(keepalive) => {
+                // the first data message (an empty keep-alive) confirms the session on the gateway's side
+                self.sock.send(&wg_bytes(keepalive)).map_err(|x| format!("send keepalive: {x}"))?;
+                Ok(())
+            }
+            other => Err(format!("handshake response not accepted: {other:?}")),
+        }
+    }
+
+    fn send_data(&mut self, d: &[u8]) -> Result<(), String> {
+        match self.tunn.handle_outgoing_packet(Packet::copy_from(d)) {
+            Some(WgKind::Data(p)) => {
+                let b = p.into_bytes();
+                self.sock.send(&b[..]).map(|_| ()).map_err(|x| format!("send: {x}"))
+            }
+            Some(_) => Err("client tunnel answered with a handshake instead of a data message".into()),
+            None => Err("client tunnel produced nothing".into()),
+        }
+    }
+
+    /// `Some(quote)` if `r` is an SCMP reply (any shape the gateway builds) whose quoted bytes are `quote`
+    fn quote_of(r: &[u8]) -> Option<&[u8]> {
+        let h = 4 * *r.get(5)? as usize;
+        r.get(h + 8..)
+    }
+
+    /// send `d` (`None`: nothing, the probe) and a sentinel; collect what the gateway did until the sentinel's reply is back
+    fn run(&mut self, d: Option<&[u8]>) -> GwObs {
+        let mut obs = GwObs::default();
+        self.mock.calls.lock().unwrap().clear();
+        self.seq += 1;
+        let mut sentinel = vec![0xF0u8];
+        sentinel.extend_from_slice(SENTINEL_MAGIC);
+        sentinel.push(self.kind as u8);
+        sentinel.extend_from_slice(&self.seq.to_be_bytes());
+        sentinel.extend_from_slice(&std::process::id().to_be_bytes());
+        if let Some(d) = d {
+            if let Err(m) = self.send_data(d) {
+                obs.stray.push(m);
+                obs.timeout = true;
+                return obs;
+            }
+            self.served += 1;
+        }
+        if let Err(m) = self.send_data(&sentinel) {
+            obs.stray.push(m);
+            obs.timeout = true;
+            return obs;
+        }
+        let mut buf = vec![0u8; 65536];
+        let deadline = Instant::now() + GW_TIMEOUT;
+        loop {
+            let n = match self.sock.recv(&mut buf) {
+                Ok(n) => n,
+                Err(_) => {
+                    obs.timeout = true;
+                    break;
+                }
+            };
+            let plain = match Packet::copy_from(&buf[..n]).try_into_wg() {
+                Ok(k) => match self.tunn.handle_incoming_packet(k) {
+                    TunnResult::WriteToTunnel(p) => p[..].to_vec(),
+                    TunnResult::Done => continue, // a keep-alive of the gateway's tunnel
+                    other => {
+                        obs.stray.push(format!("{n}-byte datagram from the gateway not accepted by the client tunnel: {other:?}"));
+                        continue;
+                    }
+                },
+                Err(x) => {
+                    obs.stray.push(format!("{n}-byte datagram from the gateway is not a WireGuard message: {x}"));
+                    continue;
+                }
+            };
+            if Self::quote_of(&plain) == Some(&sentinel[..]) {
+                self.sentinel_reply = plain;
+                break;
+            }
+            obs.replies.push(plain);
+            if Instant::now() > deadline {
+                obs.timeout = true;
+                break;
+            }
+        }
+        obs.dead = self.thread.as_ref().is_none_or(|t| t.is_finished());
+        obs.dispatched = std::mem::take(&mut *self.mock.calls.lock().unwrap());
+        obs
+    }
+}
+impl Drop for GwPair {
+    fn drop(&mut self) {
+        self.cancel.cancel();
+        if let Some(t) = self.thread.take() {
+            let _ = t.join();
+        }
+    }
+}
+
+fn gw_canon(o: &GwObs) -> String {
+    if o.dead {
+        return "panic".into();
+    }
+    if o.timeout {
+        return "timeout".into();
+    }
+    match (o.dispatched.len(), o.replies.len()) {
+        (1, 0) => format!("dispatch {}", hex(&o.dispatched[0])),
+        (0, 1) => format!("reply {}", hex(&o.replies[0])),
+        (0, 0) => "none".into(),
+        (a, b) => format!("multiple ({a} dispatches, {b} replies)"),
+    }
+}
+
+/// the view the policy must hand on: the first min(4*HdrLen + PayloadLen, len) bytes (independent of sciparse)
+fn oracle_view(d: &[u8]) -> Option<&[u8]> {
+    oracle_header(d)?;
+    let n = 4 * d[5] as usize + ((d[6] as usize) << 8 | d[7] as usize);
+    Some(&d[..n.min(d.len())])
+}
+
+/// property predicate + glue predicates on what the REAL gateway did with `c.d`
+fn gw_oracle(c: &Case, o: &GwObs, direct: &str, max_err: usize, bufsz: usize) -> Vec<(String, String)> {
+    let mut f = vec![];
+    if o.dead {
+        f.push(("C08:panic".to_string(), "the gateway task ended (panic) while handling this datagram".to_string()));
+        return f;
+    }
+    if o.timeout {
+        f.push(("C08:gateway:timeout".into(), format!("no answer to the sentinel within {GW_TIMEOUT:?} ({})", o.stray.join("; "))));
+        return f;
+    }
+    for s in &o.stray {
+        f.push(("C08:gateway:unreadable-datagram".into(), s.clone()));
+    }
+    let so = StepOut { canon: String::new(), dispatched: o.dispatched.clone(), replies: o.replies.clone(), panicked: false, encode_failed: false };
+    f.extend(oracle(c, &so, max_err, bufsz));
+    if !o.dispatched.is_empty() && !o.replies.is_empty() || o.dispatched.len() > 1 || o.replies.len() > 1 {
+        f.push(("C08:gateway:both-or-multiple".into(), format!("the gateway dispatched {} time(s) and replied {} time(s) for one datagram", o.dispatched.len(), o.replies.len())));
+    }
+    for v in &o.dispatched {
+        if oracle_view(&c.d) != Some(&v[..]) {
+            f.push(("C08:gateway:dispatched-bytes-not-view".into(), format!("{} bytes were handed to try_dispatch; the packet view of this {}-byte datagram is {:?} bytes", v.len(), c.d.len(), oracle_view(&c.d).map(|x| x.len()))));
+        }
+    }
+    // the closure = check, then dispatch(view) | reply(create_scmp_error(e, local_addr, from.ip())): same outcome as the
+    // direct calls with the pair's addresses
+    let got = gw_canon(o);
+    if got != direct {
+        let cut = |s: &str| if s.len() > 160 { format!("{}…({} chars)", &s[..160], s.len()) } else { s.to_string() };
+        f.push(("C08:gateway:differs-from-direct-call".into(), format!("gateway: {}; inbound_datagram_check(datagram, peer) followed by dispatch / create_scmp_error(local, peer): {}", cut(&got), cut(direct))));
+    }
+    f
+}
+
+struct GwEval {
+    direct: Eval,
+    canon: String,
+    spec: Vec<(String, String)>,
+    disagree: Option<(String, String)>,
+    /// the pair has to be restarted (timeout / dead gateway)
+    broken: bool,
+    trailing: usize,
+}
+
+fn gw_eval(pair: &mut GwPair, pool: &PacketBufPool<{ verif::PACKET_BUF_SIZE }>, lean: &mut Lean, c: &Case, max_err: usize, bufsz: usize) -> GwEval {
+    let direct = eval(pool, lean, c, max_err, bufsz);
+    let obs = pair.run(Some(&c.d));
+    let canon = gw_canon(&obs);
+    let cut = |s: &str| if s.len() > 200 { format!("{}…({} chars)", &s[..200], s.len()) } else { s.to_string() };
+    let mut spec;
+    let mut disagree = None;
+    if c.d.is_empty() {
+        // an empty WireGuard data message is a keep-alive: SnapTunServer answers Done, the filter never sees it
+        spec = vec![];
+        if canon != "none" {
+            spec.push(("C08:gateway:keepalive-reached-filter".to_string(), format!("an empty tunnel payload caused: {}", cut(&canon))));
+        }
+    } else {
+        spec = gw_oracle(c, &obs, &direct.step_canon, max_err, bufsz);
+        if lean.differs(&direct.model_step, &canon) {
+            disagree = Some((cut(&canon), cut(&direct.model_step)));
+        }
+    }
+    let trailing = obs.dispatched.first().map(|v| c.d.len().saturating_sub(v.len())).unwrap_or(0);
+    GwEval { direct, canon, spec, disagree, broken: obs.timeout || obs.dead, trailing }
+}
+
+/// generic shrinking: drop trailing bytes, then zero bytes from the back, while `fails` holds
+fn shrink_by(c: &Case, fails: &mut dyn FnMut(&Case) -> bool) -> Case {
+    let mut cur = c.clone();
+    let mut step = cur.d.len() / 2;
+    while step > 0 {
+        while cur.d.len() > step {
+            let mut cand = cur.clone();
+            cand.d.truncate(cur.d.len() - step);
+            if fails(&cand) {
+                cur = cand;
+            } else {
+                break;
+            }
+        }
+        step /= 2;
+    }
+    for i in (0..cur.d.len().min(256)).rev() {
+        if cur.d[i] != 0 {
+            let mut cand = cur.clone();
+            cand.d[i] = 0;
+            if fails(&cand) {
+                cur = cand;
+            }
+        }
+    }
+    cur
+}
+
+/// directed cases of one pair: the family-confusion probes of the review and the size limits
+fn gw_directed(rng: &mut Rng, t: &Target) -> Vec<Case> {
+    let peer = t.peers[0];
+    let local = t.locals[0];
+    let ia: IsdAsn = "1-ff00:0:110".parse().unwrap();
+    let mut srcs: Vec<IpAddr> = vec![peer];
+    match peer {
+        IpAddr::V4(a) => {
+            srcs.push(IpAddr::V6(a.to_ipv6_mapped()));
+            srcs.push(IpAddr::V6(a.to_ipv6_compatible()));
+        }
+        IpAddr::V6(a) => {
+            // ::ffff:127.0.0.1 -> 127.0.0.1 (what `to_canonical()` would make equal); ::1 -> 0.0.0.1 (`to_ipv4()`)
+            if let Some(v4) = a.to_ipv4_mapped() {
+                srcs.push(IpAddr::V4(v4));
+                srcs.push(IpAddr::V6(v4.to_ipv6_compatible()));
+            }
+            let o = a.octets();
+            srcs.push(IpAddr::V4(Ipv4Addr::new(o[12], o[13], o[14], o[15])));
+        }
+    }
+    srcs.push(IpAddr::V4(Ipv4Addr::UNSPECIFIED));
+    srcs.push(IpAddr::V6(Ipv6Addr::UNSPECIFIED));
+    let mut out = vec![];
+    for src in srcs {
+        for path in [DpPath::Empty, DpPath::Standard(StandardPath::arbitrary_value(rng.next() as u128))] {
+            for npay in [0usize, 9, 1300] {
+                let d = ScionRawPacket::new(ScionAddr::new(ia, src.into()), ScionAddr::new(ia, IpAddr::V4(Ipv4Addr::new(10, 0, 0, 9)).into()), path.clone(), ProtocolNumber::Udp, rng.bytes(npay))
+                    .try_encode_to_vec()
+                    .unwrap_or_default();
+                out.push(t.case("gw-directed", d, peer, local));
+            }
+        }
+    }
+    // sizes: empty (keep-alive), 1 byte, largest datagram the receive buffer admits (valid packet, and garbage)
+    out.push(t.case("gw-directed", vec![], peer, local));
+    out.push(t.case("gw-directed", vec![0], peer, local));
+    out.push(t.case("gw-directed", rng.bytes(t.max_len), peer, local));
+    for total in [t.max_len, t.max_len - 1] {
+        let hdr = 28 + 4 + match peer { IpAddr::V4(_) => 4, IpAddr::V6(_) => 16 };
+        let d = ScionRawPacket::new(ScionAddr::new(ia, peer.into()), ScionAddr::new(ia, IpAddr::V4(Ipv4Addr::new(10, 0, 0, 9)).into()), DpPath::Empty, ProtocolNumber::Udp, rng.bytes(total - hdr))
+            .try_encode_to_vec()
+            .unwrap_or_default();
+        out.push(t.case("gw-directed", d, peer, local));
+    }
+    out
+}
+
+/// bookkeeping of one directly evaluated case (verdict distribution, samples, shrinking + reporting of failures)
+fn account(rep: &mut Report, pool: &PacketBufPool<{ verif::PACKET_BUF_SIZE }>, lean: &mut Lean, c: &Case, e: &Eval, max_err: usize, bufsz: usize) -> bool {
+    let class = e.check.split(' ').next().unwrap_or("").to_string();
+    let nontrivial = !(e.check.starts_with("malformed too_small:CommonHeader") || e.check == "malformed UnsupportedVersion");
+    rep.case(&format!("{}{}|{}|{}", if c.gw { "gw|" } else { "" }, hex(&c.d[..c.d.len().min(64)]), c.d.len(), ip_str(&c.peer)), nontrivial);
+    rep.traces += 1;
+    let pre = if c.gw { "gateway " } else { "" };
+    rep.hit(&format!("stream {pre}{}", c.kind));
+    let detail = if class == "malformed" {
+        e.check.split(':').take(2).collect::<Vec<_>>().join(":")
+    } else {
+        class.clone()
+    };
+    rep.hit(&format!("{pre}verdict {detail}"));
+    if !c.gw {
+        rep.hit(&format!("outcome {}", e.step_canon.split(' ').next().unwrap_or("")));
+        rep.hit(&format!("local {}", if c.local.is_unspecified() { "unspecified (0.0.0.0 / ::)" } else if c.local.is_ipv4() { "IPv4" } else { "IPv6" }));
+    }
+    if c.d.len() > 9 && nontrivial {
+        rep.hit(&format!("{pre}src nibble {:x} / {}", c.d[9] & 15, class));
+    }
+    if c.d.len() > 8 && nontrivial {
+        rep.hit(&format!("{pre}path type {}", match c.d[8] { 0 => "0", 1 => "1", 2 => "2", 3..=5 => "3-5", 255 => "255", _ => "6-254" }));
+    }
+    rep.hit(&format!("{pre}size {}", match c.d.len() { 0..=11 => "0-11", 12..=99 => "12-99", 100..=1231 => "100-1231", 1232..=9215 => "1232-9215", _ => "9216" }));
+    if !c.gw && rep.samples.len() < 4 && nontrivial && (rep.samples.len() as u64) < rep.evaluations / 2000 + 1 {
+        rep.sample(json!({"case": case_json(c), "check": e.check, "outcome": e.step_canon.chars().take(120).collect::<String>()}));
+    }
+    if let Some((stream, im, mo)) = &e.disagree {
+        let small = shrink(pool, lean, c, max_err, bufsz, &|e: &Eval| e.disagree.is_some());
+        let e2 = eval(pool, lean, &small, max_err, bufsz);
+        let (s2, i2, m2) = e2.disagree.unwrap_or((stream.clone(), im.clone(), mo.clone()));
+        let direct = Case { gw: false, ..small.clone() };
+        rep.disagree(&s2, json!({"case": case_json(&direct), "line": case_line(&direct)}), &i2, &m2);
+    }
+    let mut seen = std::collections::HashSet::new();
+    for (key, what) in &e.spec {
+        if !seen.insert(key.clone()) {
+            continue;
+        }
+        if rep.distribution.get(&format!("SPECFAIL {key}")).copied().unwrap_or(0) >= 3 {
+            rep.hit(&format!("SPECFAIL {key}"));
+            continue;
+        }
+        let k = key.clone();
+        let small = shrink(pool, lean, c, max_err, bufsz, &|e: &Eval| e.spec.iter().any(|(kk, _)| *kk == k));
+        let direct = Case { gw: false, ..small.clone() };
+        rep.spec_fail(key, what, json!({"case": case_json(&direct), "line": case_line(&direct)}));
+    }
+    nontrivial
+}
+
+/// one case through the real gateway: direct evaluation (accounted as usual) + gateway observation
+fn gw_account(rep: &mut Report, pair: &mut GwPair, pool: &PacketBufPool<{ verif::PACKET_BUF_SIZE }>, lean: &mut Lean, c: &Case, max_err: usize, bufsz: usize) -> GwEval {
+    let g = gw_eval(pair, pool, lean, c, max_err, bufsz);
+    account(rep, pool, lean, c, &g.direct, max_err, bufsz);
+    let name = pair.kind.name();
+    let what = g.canon.split(' ').next().unwrap_or("").to_string();
+    match what.as_str() {
+        "dispatch" => {
+            rep.hit(&format!("gateway {name}: dispatched"));
+            if g.trailing > 0 {
+                rep.hit("gateway: dispatched view shorter than the datagram (trailing bytes not handed on)");
+            }
+        }
+        "reply" => {
+            rep.hit(&format!("gateway {name}: reply"));
+            rep.hit(&format!("gateway reply class {}", g.direct.check.split(' ').next().unwrap_or("")));
+        }
+        "none" if c.d.is_empty() => rep.hit("gateway: empty tunnel payload = keep-alive, never reaches the filter"),
+        other => rep.hit(&format!("gateway {name}: {other}")),
+    }
+    if rep.samples.len() < 6 && what == "dispatch" && g.trailing > 0 && c.d.len() < 200 {
+        rep.sample(json!({"case": case_json(c), "gateway": g.canon.chars().take(160).collect::<String>(), "trailing_bytes_not_dispatched": g.trailing}));
+    }
+    if let Some((im, mo)) = &g.disagree {
+        let small = if g.broken { c.clone() } else { shrink_by(c, &mut |x| !x.d.is_empty() && { let y = gw_eval(pair, pool, lean, x, max_err, bufsz); y.disagree.is_some() && !y.broken }) };
+        let (i2, m2) = if g.broken { (im.clone(), mo.clone()) } else { gw_eval(pair, pool, lean, &small, max_err, bufsz).disagree.unwrap_or((im.clone(), mo.clone())) };
+        rep.disagree("gateway", json!({"case": case_json(&small), "line": case_line(&small), "pair": name}), &i2, &m2);
+    }
+    let mut seen = std::collections::HashSet::new();
+    for (key, what) in &g.spec {
+        if !seen.insert(key.clone()) {
+            continue;
+        }
+        if rep.distribution.get(&format!("SPECFAIL {key}")).copied().unwrap_or(0) >= 3 {
+            rep.hit(&format!("SPECFAIL {key}"));
+            continue;
+        }
+        let k = key.clone();
+        let small = if g.broken { c.clone() } else { shrink_by(c, &mut |x| !x.d.is_empty() && { let y = gw_eval(pair, pool, lean, x, max_err, bufsz); !y.broken && y.spec.iter().any(|(kk, _)| *kk == k) }) };
+        rep.spec_fail(key, what, json!({"case": case_json(&small), "line": case_line(&small), "pair": name}));
+    }
+    g
+}
+
+/// the gateway stream: for each of the three peer kinds a fresh gateway + client; corpus cases of that peer first
+fn gateway_stream(rep: &mut Report, rng: &mut Rng, args: &Args, pool: &PacketBufPool<{ verif::PACKET_BUF_SIZE }>, lean: &mut Lean, corpus: &[Case], replay_only: bool, max_err: usize, bufsz: usize) {
+    let started = Instant::now();
+    for kind in [PairKind::V4, PairKind::V6, PairKind::Dual] {
+        let mine: Vec<Case> = corpus.iter().filter(|c| PairKind::of_peer(&c.peer) == Some(kind)).cloned().collect();
+        if replay_only && mine.is_empty() {
+            continue;
+        }
+        let mut pair = match GwPair::start(kind) {
+            Ok(p) => p,
+            Err(m) => {
+                rep.spec_fail("C08:gateway:setup", &m, json!({"pair": kind.name()}));
+                continue;
+            }
+        };
+        rep.hit(&format!("gateway pairs started: {}", kind.name()));
+        let t = Target { peers: vec![kind.peer()], locals: vec![pair.local], gw: true, max_len: bufsz - WG_OVERHEAD };
+        let mut cases: Vec<Case> = mine.into_iter().map(|c| Case { local: pair.local, ..c }).collect();
+        if !replay_only {
+            cases.extend(gw_directed(rng, &t));
+            cases.extend(gen_cross(rng, &t, args.thorough(), !args.thorough()));
+            for _ in 0..args.scale(500, 20_000) {
+                cases.push(gen_mutant(rng, &t));
+            }
+            for _ in 0..args.scale(150, 3000) {
+                cases.push(gen_valid(rng, &t));
+            }
+        }
+        let mut pair_started = Instant::now();
+        let mut i = 0;
+        while i < cases.len() {
+            let c = cases[i].clone();
+            i += 1;
+            // a WireGuard session is used for at most 60 s / 50 000 datagrams (no re-keying inside a pair)
+            if pair_started.elapsed() > Duration::from_secs(60) || pair.served > 50_000 {
+                drop(pair);
+                pair = match GwPair::start(kind) {
+                    Ok(p) => p,
+                    Err(m) => {
+                        rep.spec_fail("C08:gateway:setup", &m, json!({"pair": kind.name()}));
+                        break;
+                    }
+                };
+                pair_started = Instant::now();
+                rep.hit(&format!("gateway pairs started: {}", kind.name()));
+            }
+            let g = gw_account(rep, &mut pair, pool, lean, &c, max_err, bufsz);
+            // every dispatched packet once more with bytes after the packet: the view, not the datagram, must be handed on
+            if g.canon.starts_with("dispatch") && g.trailing == 0 && c.kind != "gw-trailing" && c.d.len() < t.max_len {
+                let n = (1 + rng.below(40) as usize).min(t.max_len - c.d.len());
+                let mut d = c.d.clone();
+                d.extend(rng.bytes(n));
+                cases.push(Case { kind: "gw-trailing", d, ..c.clone() });
+            }
+            if g.broken {
+                drop(pair);
+                pair = match GwPair::start(kind) {
+                    Ok(p) => p,
+                    Err(m) => {
+                        rep.spec_fail("C08:gateway:setup", &m, json!({"pair": kind.name()}));
+                        break;
+                    }
+                };
+                pair_started = Instant::now();
+            }
+        }
+    }
+    rep.notes.push(format!("gateway stream: {:.1} s", started.elapsed().as_secs_f64()));
+}
+
 fn main() {
     let args = Args::parse();
     quiet_panics();
@@ -581,12 +1262,17 @@ fn main() {
     let mut rep = Report::new(
         "C08",
         "case = (datagram, tunnel peer ip, gateway ip) run through the real inbound_datagram_check + SCMP reply constructor and \
-         through the Lean model and the independent Lean decision procedure. Streams: exhaustive cross product (16 source \
-         nibbles x path types 0..5,255 x peers v4/v6/v4-mapped x matching/embedded-v4/non-matching address bytes x destination \
-         nibbles x truncation at every header boundary), field mutants (version, HdrLen +-, PayloadLen, segment lengths up to 63, \
-         bit flips, cuts), valid packets from sciparse's packet models up to 9216 B. Non-trivial = the datagram got past the \
-         common-header size/version checks (every later branch of the filter is reachable); distinct by hash of (first 64 bytes, \
-         length, peer)",
+         through the Lean model and the independent Lean decision procedure. Direct streams: exhaustive cross product (16 source \
+         nibbles x path types 0..5,255 and two from 6..254 x peers v4/v6/v4-mapped x matching/embedded-v4/non-matching address bytes \
+         x destination nibbles x truncation at every header boundary; gateway-local addresses incl. 0.0.0.0 and ::), field mutants \
+         (version, HdrLen +-, PayloadLen, segment lengths up to 63, path types 6..254, bit flips, cuts), valid packets from sciparse's \
+         packet models up to 9216 B. Gateway stream (kinds prefixed 'gateway'): the same generators with the peer fixed to what the \
+         real TunnelGateway::start_server sees (127.0.0.1 / ::1 / ::ffff:127.0.0.1 on a dual-stack socket), every datagram <= 9184 B \
+         (9216 - 32 B WireGuard overhead; no padding is applied by gotatun) encrypted by a real gotatun client, sent over loop-back \
+         UDP; observed = bytes handed to Dispatcher::try_dispatch and decrypted replies; every dispatched packet is sent once more \
+         with trailing bytes. Each gateway case is also evaluated directly (counted once, key prefixed gw). Non-trivial = the \
+         datagram got past the common-header size/version checks (every later branch of the filter is reachable); distinct by hash \
+         of (first 64 bytes, length, peer)",
     );
     // constants: generated (Lean) vs the crate's own
     let bufsz = verif::PACKET_BUF_SIZE;
@@ -607,58 +1293,31 @@ fn main() {
         }
     }
     rep.hit_n("corpus cases", cases.len() as u64);
+    let direct_t = Target::direct(bufsz);
     if let Some(p) = &args.replay {
         let txt = std::fs::read_to_string(p).expect("replay file");
         cases = txt.lines().filter_map(parse_case).collect();
     } else {
-        cases.extend(gen_cross(&mut rng, args.thorough()));
+        cases.extend(gen_cross(&mut rng, &direct_t, args.thorough(), false));
         for _ in 0..args.scale(6000, 150_000) {
-            cases.push(gen_mutant(&mut rng));
+            cases.push(gen_mutant(&mut rng, &direct_t));
         }
         for _ in 0..args.scale(400, 6000) {
-            cases.push(gen_valid(&mut rng, bufsz));
+            cases.push(gen_valid(&mut rng, &direct_t));
         }
     }
+    let (gw_cases, cases): (Vec<Case>, Vec<Case>) = cases.into_iter().partition(|c| c.gw);
     for c in &cases {
         let e = eval(&pool, &mut lean, c, max_err, bufsz);
-        let class = e.check.split(' ').next().unwrap_or("").to_string();
-        let nontrivial = !(e.check.starts_with("malformed too_small:CommonHeader") || e.check == "malformed UnsupportedVersion");
-        rep.case(&format!("{}|{}|{}", hex(&c.d[..c.d.len().min(64)]), c.d.len(), ip_str(&c.peer)), nontrivial);
-        rep.traces += 1;
-        rep.hit(&format!("stream {}", c.kind));
-        let detail = if class == "malformed" {
-            e.check.split(':').take(2).collect::<Vec<_>>().join(":")
-        } else {
-            class.clone()
-        };
-        rep.hit(&format!("verdict {detail}"));
-        rep.hit(&format!("outcome {}", e.step_canon.split(' ').next().unwrap_or("")));
-        if c.d.len() > 9 && nontrivial {
-            rep.hit(&format!("src nibble {:x} / {}", c.d[9] & 15, class));
+        account(&mut rep, &pool, &mut lean, c, &e, max_err, bufsz);
+    }
+    for c in &gw_cases {
+        if PairKind::of_peer(&c.peer).is_none() {
+            rep.notes.push(format!("gateway corpus line with a peer no loop-back pair has: {}", c.peer));
         }
-        rep.hit(&format!("size {}", match c.d.len() { 0..=11 => "0-11", 12..=99 => "12-99", 100..=1231 => "100-1231", 1232..=9215 => "1232-9215", _ => "9216" }));
-        if rep.samples.len() < 5 && nontrivial && (rep.samples.len() as u64) < rep.evaluations / 2000 + 1 {
-            rep.sample(json!({"case": case_json(c), "check": e.check, "outcome": e.step_canon.chars().take(120).collect::<String>()}));
-        }
-        if let Some((stream, im, mo)) = &e.disagree {
-            let small = shrink(&pool, &mut lean, c, max_err, bufsz, &|e: &Eval| e.disagree.is_some());
-            let e2 = eval(&pool, &mut lean, &small, max_err, bufsz);
-            let (s2, i2, m2) = e2.disagree.unwrap_or((stream.clone(), im.clone(), mo.clone()));
-            rep.disagree(&s2, json!({"case": case_json(&small), "line": case_line(&small)}), &i2, &m2);
-        }
-        let mut seen = std::collections::HashSet::new();
-        for (key, what) in &e.spec {
-            if !seen.insert(key.clone()) {
-                continue;
-            }
-            if rep.distribution.get(&format!("SPECFAIL {key}")).copied().unwrap_or(0) >= 3 {
-                rep.hit(&format!("SPECFAIL {key}"));
-                continue;
-            }
-            let k = key.clone();
-            let small = shrink(&pool, &mut lean, c, max_err, bufsz, &|e: &Eval| e.spec.iter().any(|(kk, _)| *kk == k));
-            rep.spec_fail(key, what, json!({"case": case_json(&small), "line": case_line(&small)}));
-        }
+    }
+    if args.replay.is_none() || !gw_cases.is_empty() {
+        gateway_stream(&mut rep, &mut rng, &args, &pool, &mut lean, &gw_cases, args.replay.is_some(), max_err, bufsz);
     }
     rep.exhaustive = false;
     rep.write(&args.out);
